@@ -441,20 +441,31 @@ Definition kf_of (sy : system) (o : json) : list string :=
      (if event_risky (jnorm (jget_d "event" o)) then ["D7"] else []))%list
   else [].
 
+(** A pattern with two or more variables in one array is rejected by the matcher ("multiple variables
+    not supported here") - but only if the matcher reaches that array before another member of the
+    pattern fails to match, and the order in which it walks a map is Go's map order. *)
+Fixpoint multi_arr_vars (p : json) : bool :=
+  match p with
+  | JArr l => (2 <=? length (filter (fun x => match x with JStr s => is_var s | _ => false end) l))%nat ||
+              existsb multi_arr_vars l
+  | JObj kvs => existsb (fun kv => multi_arr_vars (snd kv)) kvs
+  | _ => false
+  end.
+
 Definition op_risky (sy : system) (o : json) : bool :=
   let op := jfS "op" o in
   if String.eqb op "query" then
-    existsb (fun p => existsb (fun f => struct_risk p f [] || negb (ground f)) (all_facts sy))
+    existsb (fun p => multi_arr_vars p || existsb (fun f => struct_risk p f [] || negb (ground f)) (all_facts sy))
             (query_patterns (jsize (jget_d "query" o)) (jnorm (jget_d "query" o)))
   else if String.eqb op "search" then
     let p := jnorm (jget_d "pattern" o) in
-    existsb (fun f => struct_risk p f [] || negb (ground f)) (all_facts sy)
+    multi_arr_vars p || existsb (fun f => struct_risk p f [] || negb (ground f)) (all_facts sy)
   else if String.eqb op "event" || String.eqb op "process" then
     let ev := jnorm (jget_d "event" o) in
     negb (ground ev) ||
     existsb (fun f => match jget "rule" f with
                       | Some r => match rule_patterns r with
-                                  | Some p => struct_risk p ev []
+                                  | Some p => struct_risk p ev [] || multi_arr_vars p
                                   | None => false
                                   end
                       | None => false
